@@ -84,6 +84,17 @@ func (h *hasher) hash(v reflect.Value, depth int) uint64 {
 		if v.IsNil() {
 			return mix(acc, 8)
 		}
+		// the spare capacity belongs to the shared state too: an append by one caller writes there, where another
+		// caller's append will write as well
+		if v.Cap() > v.Len() && v.Cap()-v.Len() <= 64 {
+			if full, ok := c15FullSlice(v); ok {
+				acc = mix(acc, uint64(v.Len()))
+				for i := 0; i < full.Len(); i++ {
+					acc = mix(acc, h.hash(full.Index(i), depth+1))
+				}
+				return acc
+			}
+		}
 		fallthrough
 	case reflect.Array:
 		acc = mix(acc, uint64(v.Len()))
@@ -442,6 +453,16 @@ func c15Schedule(r *core.Run, x *explore.X) {
 	r.Outcome(fmt.Sprintf("schedule ok=%v", ok))
 }
 
+// c15FullSlice re-slices v up to its capacity (false when reflection refuses, e.g. for slices reached through unexported fields).
+func c15FullSlice(v reflect.Value) (full reflect.Value, ok bool) {
+	defer func() {
+		if recover() != nil {
+			ok = false
+		}
+	}()
+	return v.Slice(0, v.Cap()), true
+}
+
 func c15RacePass(r *core.Run, x *explore.X) {
 	if !r.Own(x) {
 		return
@@ -451,14 +472,29 @@ func c15RacePass(r *core.Run, x *explore.X) {
 		r.Fail(x, "race-pass-binary-missing", "racepass", map[string]any{"error": err.Error()})
 		return
 	}
-	reps := "20"
+	// batches of 20 repetitions per operation pair (quick: one batch, thorough: ten); the watchdog is told after each batch
+	batches := 1
 	if r.Tier == "thorough" {
-		reps = "200"
+		batches = 10
 	}
-	cmd := exec.Command(bin, reps)
-	cmd.Env = append(os.Environ(), "GORACE=halt_on_error=1 exitcode=66", "GOMAXPROCS=16")
-	out, err := cmd.CombinedOutput()
-	text := string(out)
+	var text string
+	var err error
+	var pairsSum, callsSum int64
+	for b := 0; b < batches && err == nil; b++ {
+		cmd := exec.Command(bin, "20")
+		cmd.Env = append(os.Environ(), "GORACE=halt_on_error=1 exitcode=66", "GOMAXPROCS=16")
+		var out []byte
+		out, err = cmd.CombinedOutput()
+		text = string(out)
+		var p, c, m int64
+		for _, ln := range strings.Split(text, "\n") {
+			if strings.HasPrefix(ln, "RACEPASS") {
+				fmt.Sscanf(ln, "RACEPASS pairs=%d calls=%d mismatches=%d", &p, &c, &m)
+			}
+		}
+		pairsSum, callsSum = p, callsSum+c
+		r.Tick()
+	}
 	r.Case("race-pass", true)
 	r.Validated(1)
 	summary := ""
@@ -484,9 +520,7 @@ func c15RacePass(r *core.Run, x *explore.X) {
 		r.Outcome("race pass failed")
 		return
 	}
-	var pairs, calls, mism int64
-	fmt.Sscanf(summary, "RACEPASS pairs=%d calls=%d mismatches=%d", &pairs, &calls, &mism)
-	r.Count("race_pass_pairs", pairs)
-	r.Count("race_pass_calls", calls)
+	r.Count("race_pass_pairs", pairsSum)
+	r.Count("race_pass_calls", callsSum)
 	r.Outcome("race pass clean")
 }
